@@ -823,3 +823,10 @@ mod test {
         assert!(bit_reader.read_bits::<u8>(4).is_err()); //error
     }
 }
+
+#[cfg(image_webp_verif)]
+impl<R: BufRead> BitReader<R> {
+    pub(crate) fn verif_new(reader: R) -> Self {
+        Self::new(reader)
+    }
+}
